@@ -1,3 +1,4 @@
+use std::cell::Cell;
 use std::fmt::{Debug, Formatter};
 use anyhow::{anyhow, bail, Context, Result};
 use java_string::JavaString;
@@ -27,6 +28,12 @@ pub(crate) struct BootstrapMethodRead {
 /// A `Dynamic` entry that is (directly or indirectly) its own bootstrap argument can't be resolved at all (see JVMS 5.4.3.6),
 /// and following such a cycle, or a very long chain, would overflow the stack.
 const MAX_BOOTSTRAP_ARGUMENT_NESTING: usize = 64;
+
+/// How many bootstrap arguments, counting the nested ones, are resolved at most for a single instruction.
+///
+/// A bootstrap method has at most 65535 arguments. Nested `Dynamic` entries that share their arguments are expanded once per use,
+/// which without a limit takes time and memory exponential in the size of the constant pool.
+const MAX_BOOTSTRAP_ARGUMENTS_EXPANDED: usize = 1 << 16;
 
 #[derive(Debug, Clone, PartialEq, Eq, Hash)]
 enum PoolEntry {
@@ -207,7 +214,7 @@ impl PoolEntry {
 		MethodDescriptor::try_from(pool.get_utf8(descriptor_index).context("while getting method type")?)
 	}
 
-	fn as_dynamic(&self, pool: &PoolRead, bootstrap_methods: &Option<Vec<BootstrapMethodRead>>, nesting: usize) -> Result<ConstantDynamic> {
+	fn as_dynamic(&self, pool: &PoolRead, bootstrap_methods: &Option<Vec<BootstrapMethodRead>>, nesting: usize, budget: &Cell<usize>) -> Result<ConstantDynamic> {
 		let PoolEntry::Dynamic { bootstrap_method_attribute_index, name_and_type_index } = *self else {
 			bail!("pool entry not `Dynamic`: {self:?}");
 		};
@@ -228,7 +235,7 @@ impl PoolEntry {
 		let arguments = {
 			let mut vec = Vec::with_capacity(method.arguments.len());
 			for &argument in &method.arguments {
-				let value = pool.get_loadable_nested(argument, bootstrap_methods, nesting + 1)
+				let value = pool.get_loadable_nested(argument, bootstrap_methods, nesting + 1, budget)
 					.with_context(|| anyhow!("while argument for `Dynamic` at index {bootstrap_method_attribute_index:?}: {name:?} {descriptor:?} {handle:?}"))?;
 				vec.push(value); // TODO: recursion
 			}
@@ -252,10 +259,11 @@ impl PoolEntry {
 			bail!("cannot load `InvokeDynamic` pool entry, as there's no bootstrap method at index {}", bootstrap_method_attribute_index);
 		};
 		let handle = method.handle.clone();
+		let budget = &Cell::new(MAX_BOOTSTRAP_ARGUMENTS_EXPANDED);
 		let arguments = {
 			let mut vec = Vec::with_capacity(method.arguments.len());
 			for &argument in &method.arguments {
-				let value = pool.get_loadable_nested(argument, bootstrap_methods, 1)
+				let value = pool.get_loadable_nested(argument, bootstrap_methods, 1, budget)
 					.with_context(|| anyhow!("while argument for `InvokeDynamic` at index {bootstrap_method_attribute_index:?}: {name:?} {descriptor:?} {handle:?}"))?;
 				vec.push(value); // TODO: recursion
 			}
@@ -265,7 +273,7 @@ impl PoolEntry {
 		Ok(InvokeDynamic { name, descriptor, handle, arguments })
 	}
 
-	fn as_loadable(&self, pool: &PoolRead, bootstrap_methods: &Option<Vec<BootstrapMethodRead>>, nesting: usize) -> Result<Loadable> {
+	fn as_loadable(&self, pool: &PoolRead, bootstrap_methods: &Option<Vec<BootstrapMethodRead>>, nesting: usize, budget: &Cell<usize>) -> Result<Loadable> {
 		match self {
 			PoolEntry::Integer { .. } => Ok(Loadable::Integer(self.as_integer()?)),
 			PoolEntry::Float { .. } => Ok(Loadable::Float(self.as_float()?)),
@@ -275,7 +283,7 @@ impl PoolEntry {
 			PoolEntry::String { .. } => Ok(Loadable::String(self.as_string(pool)?)),
 			PoolEntry::MethodHandle { .. } => Ok(Loadable::MethodHandle(self.as_method_handle(pool)?)),
 			PoolEntry::MethodType { .. } => Ok(Loadable::MethodType(self.as_method_type(pool)?)),
-			PoolEntry::Dynamic { .. } => Ok(Loadable::Dynamic(self.as_dynamic(pool, bootstrap_methods, nesting)?)),
+			PoolEntry::Dynamic { .. } => Ok(Loadable::Dynamic(self.as_dynamic(pool, bootstrap_methods, nesting, budget)?)),
 			_ => bail!("pool entry is not loadable: {self:?}"),
 		}
 	}
@@ -517,12 +525,20 @@ impl PoolRead {
 	///
 	/// These are collected in the [`Loadable`] type.
 	pub(crate) fn get_loadable(&self, index: u16, bootstrap_methods: &Option<Vec<BootstrapMethodRead>>) -> Result<Loadable> {
-		self.get_loadable_nested(index, bootstrap_methods, 0)
+		self.get_loadable_nested(index, bootstrap_methods, 0, &Cell::new(MAX_BOOTSTRAP_ARGUMENTS_EXPANDED))
 	}
 
 	/// Gets a loadable constant pool entry that is needed as a bootstrap argument, `nesting` levels below an instruction.
-	fn get_loadable_nested(&self, index: u16, bootstrap_methods: &Option<Vec<BootstrapMethodRead>>, nesting: usize) -> Result<Loadable> {
-		self.get(index)?.as_loadable(self, bootstrap_methods, nesting).pool_context(index)
+	///
+	/// The `budget` is shared by all the arguments resolved for that instruction.
+	fn get_loadable_nested(&self, index: u16, bootstrap_methods: &Option<Vec<BootstrapMethodRead>>, nesting: usize, budget: &Cell<usize>) -> Result<Loadable> {
+		if nesting > 0 {
+			let Some(left) = budget.get().checked_sub(1) else {
+				bail!("more than {MAX_BOOTSTRAP_ARGUMENTS_EXPANDED} bootstrap arguments, counting nested ones, for a single instruction");
+			};
+			budget.set(left);
+		}
+		self.get(index)?.as_loadable(self, bootstrap_methods, nesting, budget).pool_context(index)
 	}
 
 	pub(crate) fn get_constant_value(&self, index: u16) -> Result<ConstantValue> {
